@@ -7,26 +7,32 @@ variable {K : Type} [DecidableEq K]
 
 /-- `n'` differs from `n` at most by connections having become broken. -/
 def NetLe (n n' : Nat → Conn K) : Prop :=
-  ∀ j, (n' j).serverKs = (n j).serverKs ∧ (n' j).acked = (n j).acked ∧ ((n j).broken = true → (n' j).broken = true)
+  ∀ j, (n' j).serverKs = (n j).serverKs ∧ (n' j).acked = (n j).acked ∧ (n' j).queue = (n j).queue ∧
+    (n' j).userMark = (n j).userMark ∧ ((n j).broken = true → (n' j).broken = true)
 
-theorem NetLe.refl (n : Nat → Conn K) : NetLe n n := fun _ => ⟨rfl, rfl, id⟩
-
-theorem NetLe.trans {a b c : Nat → Conn K} (h1 : NetLe a b) (h2 : NetLe b c) : NetLe a c := fun j =>
-  ⟨(h2 j).1.trans (h1 j).1, (h2 j).2.1.trans (h1 j).2.1, fun h => (h2 j).2.2 ((h1 j).2.2 h)⟩
+theorem NetLe.refl (n : Nat → Conn K) : NetLe n n := fun _ => ⟨rfl, rfl, rfl, rfl, id⟩
 
 theorem netLe_close (p : Pool K) (i : Nat) : NetLe p.net (p.close i).net := by
   intro j
   unfold Pool.close setConn
   by_cases h : j = i <;> simp [h]
 
-/-- The strong statement about the newest task (meaningful when no two requests overlapped). -/
+/-- What is claimed about connection `i` with respect to the newest task `L`, when `i` is published, not broken
+and no user-issued `USE` was written on it after `L`'s own. -/
+def ConnOk (L : Task K) (c : Conn K) (i : Nat) : Prop :=
+  (i ∉ L.snapshot → c.serverKs = some L.ks ∧ c.queue = []) ∧
+  (i ∈ L.snapshot →
+    (L.results.lookup i = some (.ok ()) → c.serverKs = some L.ks ∧ c.queue = []) ∧
+    (L.resp = none → i ∈ L.submitted → L.results.lookup i = none →
+      ∃ pre, c.queue = pre ++ [(.task L.id, L.ks)] ∧ ∀ e ∈ pre, e.1 ≠ .task L.id))
+
+/-- The strong statement about the newest task (meaningful when it did not overlap an older one). -/
 def Strong (p : Pool K) : Prop :=
   match p.tasks with
-  | [] => ∀ i ∈ p.conns, (p.net i).broken = false → (p.net i).serverKs = p.currentKs
+  | [] => ∀ i ∈ p.conns, (p.net i).broken = false → (p.net i).userMark = false →
+      (p.net i).serverKs = p.currentKs ∧ (p.net i).queue = []
   | L :: rest => p.currentKs = some L.ks ∧ (∀ t ∈ rest, t.resp ≠ none) ∧
-      ∀ i ∈ p.conns, (p.net i).broken = false →
-        (i ∈ L.snapshot → L.results.lookup i = some (.ok ()) → (p.net i).serverKs = some L.ks) ∧
-        (i ∉ L.snapshot → (p.net i).serverKs = some L.ks)
+      ∀ i ∈ p.conns, (p.net i).broken = false → (p.net i).userMark = false → ConnOk L (p.net i) i
 
 structure Inv (p : Pool K) : Prop where
   conns_lt : ∀ i ∈ p.conns, i < p.nextId
@@ -35,28 +41,38 @@ structure Inv (p : Pool K) : Prop where
   snap_lt : ∀ t ∈ p.tasks, ∀ i ∈ t.snapshot, i < p.nextId
   ids : p.tasks.Pairwise (fun a b => a.id ≠ b.id)
   ids_lt : ∀ t ∈ p.tasks, t.id < p.tasks.length
-  res_snap : ∀ t ∈ p.tasks, ∀ i r, t.results.lookup i = some r → i ∈ t.snapshot
+  sub_snap : ∀ t ∈ p.tasks, ∀ i ∈ t.submitted, i ∈ t.snapshot
+  res_sub : ∀ t ∈ p.tasks, ∀ i r, t.results.lookup i = some r → i ∈ t.submitted
   res_broken : ∀ t ∈ p.tasks, ∀ i, t.results.lookup i = some (.error .broken) → (p.net i).broken = true
   res_ok : ∀ t ∈ p.tasks, ∀ i, t.results.lookup i = some (.ok ()) → t.ks ∈ (p.net i).acked
   priv : ∀ e ∈ p.setting, e.1 ∉ p.conns ∧ ∀ t ∈ p.tasks, e.1 ∉ t.snapshot
+  setting_clean : ∀ e ∈ p.setting, (p.net e.1).queue = [] ∧ (p.net e.1).userMark = false
+  q_lt : ∀ i tid k, (Waiter.task tid, k) ∈ (p.net i).queue → tid < p.tasks.length
+  q_sub : ∀ t ∈ p.tasks, ∀ i, i ∉ t.submitted → ∀ e ∈ (p.net i).queue, e.1 ≠ .task t.id
+  q_ks : ∀ t ∈ p.tasks, ∀ i k, (Waiter.task t.id, k) ∈ (p.net i).queue → k = t.ks
   resp : ∀ t ∈ p.tasks, ∀ o, t.resp = some o →
     (t.snapshot = [] ∧ o = .ok) ∨ o = .err .timeout ∨ (t.allDone = true ∧ o = useKeyspaceResult t.resultList)
   strong : p.overlap = false → Strong p
+
+theorem Inv.res_snap {p : Pool K} (h : Inv p) (t : Task K) (ht : t ∈ p.tasks) (i : Nat) (r : UseRes)
+    (hr : t.results.lookup i = some r) : i ∈ t.snapshot :=
+  h.sub_snap t ht i (h.res_sub t ht i r hr)
 
 theorem inv_init (perShard : Bool) (target : Nat) (ks : Option K) : Inv (Pool.init perShard target ks) := by
   constructor <;> simp [Pool.init, Strong]
 
 /-- Frame: the network only got worse (connections broke), connections were unpublished or a connection
-carrying the current keyspace was published, setting-keyspace futures were dropped or added for private
-connections; bookkeeping fields are free. -/
+carrying the current keyspace (nothing in flight on it) was published, setting-keyspace futures were dropped or
+added for private connections; bookkeeping fields are free. -/
 theorem inv_frame {p q : Pool K} (h : Inv p)
     (hnet : NetLe p.net q.net)
     (hconns : ∀ j ∈ q.conns, j ∈ p.conns ∨ (j < p.nextId ∧ (∀ t ∈ p.tasks, j ∉ t.snapshot) ∧
-        (p.net j).serverKs = p.currentKs ∧ ∀ e ∈ q.setting, e.1 ≠ j))
+        (p.net j).serverKs = p.currentKs ∧ (p.net j).queue = [] ∧ ∀ e ∈ q.setting, e.1 ≠ j))
     (hset : ∀ e ∈ q.setting, e ∈ p.setting ∨ (e.1 < p.nextId ∧ p.currentKs ≠ none ∧ e.1 ∉ p.conns ∧
-        ∀ t ∈ p.tasks, e.1 ∉ t.snapshot))
+        (∀ t ∈ p.tasks, e.1 ∉ t.snapshot) ∧ (p.net e.1).queue = [] ∧ (p.net e.1).userMark = false))
     (hid : q.nextId = p.nextId) (hks : q.currentKs = p.currentKs)
     (ht : q.tasks = p.tasks) (ho : q.overlap = p.overlap) : Inv q := by
+  have hq : ∀ j, (q.net j).queue = (p.net j).queue := fun j => (hnet j).2.2.1
   constructor
   · intro i hi; rw [hid]
     rcases hconns i hi with h1 | h1
@@ -73,20 +89,29 @@ theorem inv_frame {p q : Pool K} (h : Inv p)
   · rw [ht, hid]; exact h.snap_lt
   · rw [ht]; exact h.ids
   · rw [ht]; exact h.ids_lt
-  · rw [ht]; exact h.res_snap
-  · rw [ht]; intro t ht' i hi; exact (hnet i).2.2 (h.res_broken t ht' i hi)
+  · rw [ht]; exact h.sub_snap
+  · rw [ht]; exact h.res_sub
+  · rw [ht]; intro t ht' i hi; exact (hnet i).2.2.2.2 (h.res_broken t ht' i hi)
   · rw [ht]; intro t ht' i hi; rw [(hnet i).2.1]; exact h.res_ok t ht' i hi
   · rw [ht]; intro e he
     have hsnap : ∀ t ∈ p.tasks, e.1 ∉ t.snapshot := by
       rcases hset e he with h1 | h1
       · exact (h.priv e h1).2
-      · exact h1.2.2.2
+      · exact h1.2.2.2.1
     refine ⟨fun hc => ?_, hsnap⟩
     rcases hconns _ hc with h2 | h2
     · rcases hset e he with h1 | h1
       · exact (h.priv e h1).1 h2
       · exact h1.2.2.1 h2
-    · exact h2.2.2.2 e he rfl
+    · exact h2.2.2.2.2 e he rfl
+  · intro e he
+    rw [hq, (hnet e.1).2.2.2.1]
+    rcases hset e he with h1 | h1
+    · exact h.setting_clean e h1
+    · exact ⟨h1.2.2.2.2.1, h1.2.2.2.2.2⟩
+  · rw [ht]; intro i tid k hm; rw [hq] at hm; exact h.q_lt i tid k hm
+  · rw [ht]; intro t ht' i hi e he; rw [hq] at he; exact h.q_sub t ht' i hi e he
+  · rw [ht]; intro t ht' i k hm; rw [hq] at hm; exact h.q_ks t ht' i k hm
   · rw [ht]; exact h.resp
   · intro hov
     rw [ho] at hov
@@ -97,31 +122,42 @@ theorem inv_frame {p q : Pool K} (h : Inv p)
       intro i hi
       cases hpb : (p.net i).broken with
       | false => rfl
-      | true => rw [(hnet i).2.2 hpb] at hi; cases hi
+      | true => rw [(hnet i).2.2.2.2 hpb] at hi; cases hi
     cases htasks : p.tasks with
     | nil =>
       rw [htasks] at hs
-      intro i hi hbr
-      rw [(hnet i).1]
+      intro i hi hbr hm
+      rw [(hnet i).1, hq]
+      rw [(hnet i).2.2.2.1] at hm
       rcases hconns i hi with h1 | h1
-      · exact hs i h1 (hb i hbr)
-      · exact h1.2.2.1
+      · exact hs i h1 (hb i hbr) hm
+      · exact ⟨h1.2.2.1, h1.2.2.2.1⟩
     | cons L rest =>
       rw [htasks] at hs
       refine ⟨hs.1, hs.2.1, ?_⟩
-      intro i hi hbr
-      rw [(hnet i).1]
+      intro i hi hbr hm
+      rw [(hnet i).2.2.2.1] at hm
+      unfold ConnOk
+      rw [(hnet i).1, hq]
       rcases hconns i hi with h1 | h1
-      · exact hs.2.2 i h1 (hb i hbr)
+      · exact hs.2.2 i h1 (hb i hbr) hm
       · have hL : i ∉ L.snapshot := h1.2.1 L (by rw [htasks]; exact List.mem_cons_self)
-        exact ⟨fun hc => absurd hc hL, fun _ => by rw [h1.2.2.1, hs.1]⟩
+        exact ⟨fun _ => ⟨by rw [h1.2.2.1, hs.1], h1.2.2.2.1⟩, fun hc => absurd hc hL⟩
 
 /-- Frame: the network changed only at connections that are neither published nor in any task's snapshot
-(a fresh connection, or one that is still private to its setting-keyspace future). -/
+(a fresh connection, or one that is still private to its setting-keyspace future), and nothing was put in
+flight there. -/
 theorem inv_frame2 {p q : Pool K} (h : Inv p)
     (hnet : ∀ j, (j ∈ p.conns ∨ ∃ t ∈ p.tasks, j ∈ t.snapshot) → q.net j = p.net j)
+    (hnq : ∀ j, (q.net j).queue = (p.net j).queue ∨ (q.net j).queue = [])
+    (hnset : ∀ e ∈ p.setting, q.net e.1 = p.net e.1)
     (hconns : q.conns = p.conns) (hset : q.setting = p.setting) (hid : p.nextId ≤ q.nextId)
     (hks : q.currentKs = p.currentKs) (ht : q.tasks = p.tasks) (ho : q.overlap = p.overlap) : Inv q := by
+  have hqsub : ∀ j, ∀ e ∈ (q.net j).queue, e ∈ (p.net j).queue := by
+    intro j e he
+    rcases hnq j with h1 | h1
+    · rw [h1] at he; exact he
+    · rw [h1] at he; cases he
   constructor
   · rw [hconns]; intro i hi; exact Nat.lt_of_lt_of_le (h.conns_lt i hi) hid
   · rw [hset]; intro e he; exact Nat.lt_of_lt_of_le (h.setting_lt e he) hid
@@ -129,12 +165,17 @@ theorem inv_frame2 {p q : Pool K} (h : Inv p)
   · rw [ht]; intro t ht' i hi; exact Nat.lt_of_lt_of_le (h.snap_lt t ht' i hi) hid
   · rw [ht]; exact h.ids
   · rw [ht]; exact h.ids_lt
-  · rw [ht]; exact h.res_snap
+  · rw [ht]; exact h.sub_snap
+  · rw [ht]; exact h.res_sub
   · rw [ht]; intro t ht' i hi
     rw [hnet i (Or.inr ⟨t, ht', h.res_snap t ht' i _ hi⟩)]; exact h.res_broken t ht' i hi
   · rw [ht]; intro t ht' i hi
     rw [hnet i (Or.inr ⟨t, ht', h.res_snap t ht' i _ hi⟩)]; exact h.res_ok t ht' i hi
   · rw [ht, hset, hconns]; exact h.priv
+  · rw [hset]; intro e he; rw [hnset e he]; exact h.setting_clean e he
+  · rw [ht]; intro i tid k hm; exact h.q_lt i tid k (hqsub i _ hm)
+  · rw [ht]; intro t ht' i hi e he; exact h.q_sub t ht' i hi e (hqsub i e he)
+  · rw [ht]; intro t ht' i k hm; exact h.q_ks t ht' i k (hqsub i _ hm)
   · rw [ht]; exact h.resp
   · intro hov
     rw [ho] at hov
@@ -144,24 +185,24 @@ theorem inv_frame2 {p q : Pool K} (h : Inv p)
     cases htasks : p.tasks with
     | nil =>
       rw [htasks] at hs
-      intro i hi hbr
-      rw [hnet i (Or.inl hi)] at hbr ⊢
-      exact hs i hi hbr
+      intro i hi hbr hm
+      rw [hnet i (Or.inl hi)] at hbr hm ⊢
+      exact hs i hi hbr hm
     | cons L rest =>
       rw [htasks] at hs
       refine ⟨hs.1, hs.2.1, ?_⟩
-      intro i hi hbr
-      rw [hnet i (Or.inl hi)] at hbr ⊢
-      exact hs.2.2 i hi hbr
+      intro i hi hbr hm
+      rw [hnet i (Or.inl hi)] at hbr hm ⊢
+      exact hs.2.2 i hi hbr hm
 
 /-- What `accept` may change. -/
-theorem accept_frame (p : Pool K) (i : Nat) (req : Bool) :
+theorem accept_frame (p : Pool K) (i : Nat) (req : Option Nat) :
     let q := p.accept i req
     NetLe p.net q.net ∧ (∀ j ∈ q.conns, j ∈ p.conns ∨ j = i) ∧ q.setting = p.setting ∧ q.nextId = p.nextId ∧
     q.currentKs = p.currentKs ∧ q.tasks = p.tasks ∧ q.overlap = p.overlap := by
   unfold Pool.accept Pool.maybeReshard
   simp only
-  split <;> split <;> (try split) <;> (try split) <;>
+  split <;> split <;> split <;> (try split) <;> (try split) <;>
     simp_all [NetLe.refl, Pool.close, Pool.canAccept] <;>
     first
       | (intro j; unfold setConn; by_cases hj : j = i <;> simp [hj])
@@ -174,7 +215,7 @@ theorem afterReady_frame (p : Pool K) :
   unfold Pool.afterReady
   split <;> simp
 
-theorem handleReady_cases (p : Pool K) (i : Nat) (evKs : Option K) (req : Bool) :
+theorem handleReady_cases (p : Pool K) (i : Nat) (evKs : Option K) (req : Option Nat) :
     (p.handleReady i evKs req = p.accept i req ∧ (p.currentKs = none ∨ evKs = p.currentKs)) ∨
     (∃ k, p.currentKs = some k ∧ p.handleReady i evKs req = { p with setting := p.setting ++ [(i, k, req)] }) := by
   unfold Pool.handleReady
@@ -186,10 +227,12 @@ theorem handleReady_cases (p : Pool K) (i : Nat) (evKs : Option K) (req : Bool) 
     · right; exact ⟨k, rfl, by simp [hne]⟩
 
 /-- `handle_ready_connection` (Ok branch) + the run loop's excess clearing keep the invariant, provided the
-connection is private and, if its event claims the current keyspace, the server has that keyspace set. -/
-theorem inv_handleReady {p : Pool K} (h : Inv p) (i : Nat) (evKs : Option K) (req : Bool)
+connection is private, nothing is in flight on it and, if its event claims the current keyspace, the server has
+that keyspace set. -/
+theorem inv_handleReady {p : Pool K} (h : Inv p) (i : Nat) (evKs : Option K) (req : Option Nat)
     (hi : i < p.nextId) (hc : i ∉ p.conns) (hs : ∀ e ∈ p.setting, e.1 ≠ i)
     (ht : ∀ t ∈ p.tasks, i ∉ t.snapshot)
+    (hq : (p.net i).queue = [] ∧ (p.net i).userMark = false)
     (hev : evKs = p.currentKs → (p.net i).serverKs = p.currentKs)
     (hnone : p.currentKs = none → (p.net i).serverKs = none) :
     Inv (p.handleReady i evKs req).afterReady := by
@@ -208,7 +251,7 @@ theorem inv_handleReady {p : Pool K} (h : Inv p) (i : Nat) (evKs : Option K) (re
       rcases b2 j hj with h1 | h1
       · exact Or.inl h1
       · subst h1
-        refine Or.inr ⟨hi, ht, ?_, ?_⟩
+        refine Or.inr ⟨hi, ht, ?_, hq.1, ?_⟩
         · rcases hcur with h2 | h2
           · rw [h2]; exact hnone h2
           · exact hev h2
@@ -229,7 +272,7 @@ theorem inv_handleReady {p : Pool K} (h : Inv p) (i : Nat) (evKs : Option K) (re
       rcases he with h1 | h1
       · exact Or.inl h1
       · subst h1
-        exact Or.inr ⟨hi, by simp [hk], hc, ht⟩
+        exact Or.inr ⟨hi, by simp [hk], hc, ht, hq.1, hq.2⟩
     · rw [a4]
     · rw [a5]
     · rw [a6]
@@ -255,11 +298,16 @@ theorem inv_useKs {p : Pool K} (h : Inv p) (k : K) : Inv (step p (.useKs k)) := 
     rcases ht with rfl | ht
     · simp
     · have := h.ids_lt t ht; omega
+  · intro t ht i hi
+    simp only [List.mem_cons] at ht
+    rcases ht with rfl | ht
+    · simp at hi
+    · exact h.sub_snap t ht i hi
   · intro t ht i r hr
     simp only [List.mem_cons] at ht
     rcases ht with rfl | ht
     · simp at hr
-    · exact h.res_snap t ht i r hr
+    · exact h.res_sub t ht i r hr
   · intro t ht i hr
     simp only [List.mem_cons] at ht
     rcases ht with rfl | ht
@@ -276,6 +324,26 @@ theorem inv_useKs {p : Pool K} (h : Inv p) (k : K) : Inv (step p (.useKs k)) := 
     rcases ht with rfl | ht
     · exact (h.priv e he).1
     · exact (h.priv e he).2 t ht
+  · exact h.setting_clean
+  · intro i tid k' hm
+    have := h.q_lt i tid k' hm
+    simp only [List.length_cons]; omega
+  · intro t ht i hi e he
+    simp only [List.mem_cons] at ht
+    rcases ht with rfl | ht
+    · intro heq
+      obtain ⟨w, k'⟩ := e
+      simp only at heq
+      subst heq
+      have := h.q_lt i _ k' he
+      simp at this
+    · exact h.q_sub t ht i hi e he
+  · intro t ht i k' hm
+    simp only [List.mem_cons] at ht
+    rcases ht with rfl | ht
+    · have := h.q_lt i _ k' hm
+      simp at this
+    · exact h.q_ks t ht i k' hm
   · intro t ht o ho
     simp only [List.mem_cons] at ht
     rcases ht with rfl | ht
@@ -286,16 +354,16 @@ theorem inv_useKs {p : Pool K} (h : Inv p) (k : K) : Inv (step p (.useKs k)) := 
       | cons a l => simp [hc] at ho
     · exact h.resp t ht o ho
   · intro hov
-    simp only [Bool.or_eq_false_iff] at hov
+    simp only at hov
     unfold Strong
     simp only
     refine ⟨trivial, ?_, ?_⟩
     · intro t ht hnone
-      have := hov.2
-      rw [List.any_eq_false] at this
-      exact this t ht (by simp [hnone])
-    · intro i hi _
-      exact ⟨fun _ hr => by simp at hr, fun hn => absurd hi hn⟩
+      rw [List.any_eq_false] at hov
+      exact hov t ht (by simp [hnone])
+    · intro i hi _ _
+      unfold ConnOk
+      exact ⟨fun hn => absurd hi hn, fun _ => ⟨fun hr => by simp at hr, fun _ hs => by simp at hs⟩⟩
 
 theorem unique_id {ts : List (Task K)} (hp : ts.Pairwise (fun a b => a.id ≠ b.id)) {a b : Task K}
     (ha : a ∈ ts) (hb : b ∈ ts) (hid : a.id = b.id) : a = b := by
@@ -334,36 +402,153 @@ theorem modifyTask_of_ne {ts : List (Task K)} {tid : Nat} {f : Task K → Task K
 theorem serveUse_props (c : Conn K) (k : K) (r : SrvReply K) :
     let (c', res) := serveUse c k r
     c'.broken = c.broken ∧ (∀ x ∈ c.acked, x ∈ c'.acked) ∧ res ≠ .error .broken ∧
-    (res = .ok () → c'.serverKs = some k ∧ k ∈ c'.acked) := by
+    (res = .ok () → c'.serverKs = some k ∧ k ∈ c'.acked) ∧ c'.queue = c.queue ∧ c'.userMark = c.userMark := by
   cases r <;> simp [serveUse] <;> (intro x hx; exact Or.inl hx)
 
-/-- A task's `USE` on one of its snapshot connections resolves. -/
-theorem inv_taskUse {p : Pool K} (h : Inv p) (t0 : Task K) (ht0 : t0 ∈ p.tasks) (halive : t0.resp = none)
-    (i : Nat) (hi : i ∈ t0.snapshot) (hlk : t0.results.lookup i = none) (c : Conn K) (res : UseRes)
-    (hc : (c = p.net i ∧ res = .error .broken ∧ (p.net i).broken = true) ∨
-          ((p.net i).broken = false ∧ c.broken = false ∧ (∀ x ∈ (p.net i).acked, x ∈ c.acked) ∧
-            res ≠ .error .broken ∧ (res = .ok () → c.serverKs = some t0.ks ∧ t0.ks ∈ c.acked))) :
-    Inv { p with net := setConn p.net i c,
+/-- The properties of the connection after the node answered (or the broken connection failed) the oldest
+`USE` in flight. -/
+structure Served (c c' : Conn K) (k : K) (rest : List (Waiter × K)) (res : UseRes) : Prop where
+  broken : c'.broken = c.broken
+  acked : ∀ x ∈ c.acked, x ∈ c'.acked
+  queue : c'.queue = rest
+  mark : c'.userMark = c.userMark
+  ok : res = .ok () → c'.serverKs = some k ∧ k ∈ c'.acked
+  brk : res = .error .broken → c.broken = true
+
+theorem served_of_step (c : Conn K) (k : K) (r : SrvReply K) (rest : List (Waiter × K)) :
+    Served c { (if c.broken then (c, (.error .broken : UseRes)) else serveUse c k r).1 with queue := rest } k rest
+      (if c.broken then (c, (.error .broken : UseRes)) else serveUse c k r).2 := by
+  by_cases hb : c.broken = true
+  · rw [if_pos hb]
+    exact ⟨rfl, fun x hx => hx, rfl, rfl, fun h => by simp at h, fun _ => hb⟩
+  · have hb' : c.broken = false := by simpa using hb
+    simp only [hb', Bool.false_eq_true, ↓reduceIte]
+    have hp := serveUse_props c k r
+    generalize serveUse c k r = cr at hp ⊢
+    obtain ⟨c1, res⟩ := cr
+    simp only at hp ⊢
+    exact ⟨hp.1, hp.2.1, rfl, hp.2.2.2.2.2, hp.2.2.2.1, fun h => absurd h hp.2.2.1⟩
+
+/-- The oldest `USE` on `i` is answered and nobody records the answer (a user statement, or a task that has
+already answered its caller). -/
+theorem inv_serve_norec {p : Pool K} (h : Inv p) (i : Nat) (w : Waiter) (k : K) (rest : List (Waiter × K))
+    (c' : Conn K) (res : UseRes) (hqu : (p.net i).queue = (w, k) :: rest) (hsv : Served (p.net i) c' k rest res)
+    (hno : ∀ t ∈ p.tasks, w = .task t.id → t.resp ≠ none ∨ t.results.lookup i ≠ none) :
+    Inv { p with net := setConn p.net i c' } := by
+  have hnet : ∀ j, j ≠ i → setConn p.net i c' j = p.net j := fun j hj => by simp [setConn, hj]
+  have hneti : setConn p.net i c' i = c' := by simp [setConn]
+  have hqsub : ∀ j, ∀ e ∈ (setConn p.net i c' j).queue, e ∈ (p.net j).queue := by
+    intro j e he
+    by_cases hj : j = i
+    · subst hj; rw [hneti, hsv.queue] at he; rw [hqu]; exact List.mem_cons_of_mem _ he
+    · rw [hnet j hj] at he; exact he
+  have hiset : ∀ e ∈ p.setting, e.1 ≠ i := by
+    intro e he heq
+    have := (h.setting_clean e he).1
+    rw [heq, hqu] at this; cases this
+  constructor
+  · exact h.conns_lt
+  · exact h.setting_lt
+  · exact h.setting_cur
+  · exact h.snap_lt
+  · exact h.ids
+  · exact h.ids_lt
+  · exact h.sub_snap
+  · exact h.res_sub
+  · intro t ht j hr
+    have := h.res_broken t ht j hr
+    by_cases hj : j = i
+    · subst hj; simp only [hneti]; rw [hsv.broken]; exact this
+    · simp only [hnet j hj]; exact this
+  · intro t ht j hr
+    have := h.res_ok t ht j hr
+    by_cases hj : j = i
+    · subst hj; simp only [hneti]; exact hsv.acked _ this
+    · simp only [hnet j hj]; exact this
+  · exact h.priv
+  · intro e he
+    simp only [hnet e.1 (hiset e he)]
+    exact h.setting_clean e he
+  · intro j tid k' hm; exact h.q_lt j tid k' (hqsub j _ hm)
+  · intro t ht j hj e he; exact h.q_sub t ht j hj e (hqsub j e he)
+  · intro t ht j k' hm; exact h.q_ks t ht j k' (hqsub j _ hm)
+  · exact h.resp
+  · intro hov
+    have hs := h.strong hov
+    unfold Strong at hs ⊢
+    simp only
+    cases htasks : p.tasks with
+    | nil =>
+      rw [htasks] at hs
+      intro j hj hb hm
+      by_cases hji : j = i
+      · subst hji
+        rw [hneti] at hb hm
+        rw [hsv.broken] at hb; rw [hsv.mark] at hm
+        have := (hs j hj hb hm).2
+        rw [hqu] at this; cases this
+      · rw [hnet j hji] at hb hm ⊢; exact hs j hj hb hm
+    | cons L tl =>
+      rw [htasks] at hs
+      refine ⟨hs.1, hs.2.1, ?_⟩
+      intro j hj hb hm
+      by_cases hji : j = i
+      · subst hji
+        rw [hneti] at hb hm ⊢
+        rw [hsv.broken] at hb; rw [hsv.mark] at hm
+        have hok := hs.2.2 j hj hb hm
+        unfold ConnOk at hok ⊢
+        refine ⟨fun hn => ?_, fun hin => ⟨fun hr => ?_, fun hal hsub hlk => ?_⟩⟩
+        · have := (hok.1 hn).2; rw [hqu] at this; cases this
+        · have := ((hok.2 hin).1 hr).2; rw [hqu] at this; cases this
+        · obtain ⟨pre, hpre, hne⟩ := (hok.2 hin).2 hal hsub hlk
+          rw [hqu] at hpre
+          cases pre with
+          | nil =>
+            simp only [List.nil_append, List.cons.injEq, Prod.mk.injEq] at hpre
+            have hL : L ∈ p.tasks := by rw [htasks]; exact List.mem_cons_self
+            rcases hno L hL hpre.1.1 with h1 | h1
+            · exact absurd hal h1
+            · exact absurd hlk h1
+          | cons e0 pre' =>
+            simp only [List.cons_append, List.cons.injEq] at hpre
+            refine ⟨pre', by rw [hsv.queue]; exact hpre.2, fun e he => hne e (List.mem_cons_of_mem _ he)⟩
+      · rw [hnet j hji] at hb hm ⊢; exact hs.2.2 j hj hb hm
+
+/-- The oldest `USE` on `i` is answered and the (alive) task that waits for it records the answer. -/
+theorem inv_serve_rec {p : Pool K} (h : Inv p) (i : Nat) (t0 : Task K) (k : K) (rest : List (Waiter × K))
+    (c' : Conn K) (res : UseRes) (hqu : (p.net i).queue = (.task t0.id, k) :: rest)
+    (hsv : Served (p.net i) c' k rest res)
+    (ht0 : t0 ∈ p.tasks) (halive : t0.resp = none) (hlk : t0.results.lookup i = none) :
+    Inv { p with net := setConn p.net i c',
                  tasks := modifyTask p.tasks t0.id fun t => { t with results := (i, res) :: t.results } } := by
   have huniq : ∀ t ∈ p.tasks, t.id = t0.id → t = t0 := fun t ht hid => unique_id h.ids ht ht0 hid
-  have hbrk : ∀ j, (p.net j).broken = true → (setConn p.net i c j).broken = true := by
+  have hnet : ∀ j, j ≠ i → setConn p.net i c' j = p.net j := fun j hj => by simp [setConn, hj]
+  have hneti : setConn p.net i c' i = c' := by simp [setConn]
+  have hqsub : ∀ j, ∀ e ∈ (setConn p.net i c' j).queue, e ∈ (p.net j).queue := by
+    intro j e he
+    by_cases hj : j = i
+    · subst hj; rw [hneti, hsv.queue] at he; rw [hqu]; exact List.mem_cons_of_mem _ he
+    · rw [hnet j hj] at he; exact he
+  have hiset : ∀ e ∈ p.setting, e.1 ≠ i := by
+    intro e he heq
+    have := (h.setting_clean e he).1
+    rw [heq, hqu] at this; cases this
+  have hk : k = t0.ks := h.q_ks t0 ht0 i k (by rw [hqu]; exact List.mem_cons_self)
+  have hisub : i ∈ t0.submitted := by
+    by_cases hn : i ∈ t0.submitted
+    · exact hn
+    · exact absurd rfl (h.q_sub t0 ht0 i hn (.task t0.id, k) (by rw [hqu]; exact List.mem_cons_self))
+  have hbrk : ∀ j, (p.net j).broken = true → (setConn p.net i c' j).broken = true := by
     intro j hj
-    unfold setConn
     by_cases hji : j = i
-    · subst hji
-      rcases hc with ⟨rfl, _, _⟩ | ⟨hnb, _⟩
-      · simpa using hj
-      · rw [hnb] at hj; cases hj
-    · simp [hji, hj]
-  have hack : ∀ j x, x ∈ (p.net j).acked → x ∈ (setConn p.net i c j).acked := by
+    · subst hji; rw [hneti, hsv.broken]; exact hj
+    · rw [hnet j hji]; exact hj
+  have hack : ∀ j x, x ∈ (p.net j).acked → x ∈ (setConn p.net i c' j).acked := by
     intro j x hx
-    unfold setConn
     by_cases hji : j = i
-    · subst hji
-      rcases hc with ⟨rfl, _, _⟩ | ⟨_, _, hsub, _⟩
-      · simpa using hx
-      · simpa using hsub x hx
-    · simpa [hji] using hx
+    · subst hji; rw [hneti]; exact hsv.acked x hx
+    · rw [hnet j hji]; exact hx
   constructor
   · exact h.conns_lt
   · exact h.setting_lt
@@ -379,16 +564,20 @@ theorem inv_taskUse {p : Pool K} (h : Inv p) (t0 : Task K) (ht0 : t0 ∈ p.tasks
     obtain ⟨t, ht, rfl⟩ := mem_modifyTask.mp ht'
     simp only [modifyTask, List.length_map]
     split <;> exact h.ids_lt t ht
+  · intro t' ht' j hj
+    obtain ⟨t, ht, rfl⟩ := mem_modifyTask.mp ht'
+    split at hj <;> split <;> first | exact h.sub_snap t ht j hj | simp_all
   · intro t' ht' j r hr
     obtain ⟨t, ht, rfl⟩ := mem_modifyTask.mp ht'
     split at hr
     next hid =>
       have := huniq t ht hid; subst this
+      simp only [hid, ↓reduceIte]
       simp only [List.lookup_cons] at hr
       split at hr
-      next heq => simp only [beq_iff_eq] at heq; subst heq; simpa using hi
-      next => simpa using h.res_snap _ ht j r hr
-    next => split <;> exact h.res_snap t ht j r hr
+      next heq => simp only [beq_iff_eq] at heq; subst heq; exact hisub
+      next => exact h.res_sub _ ht j r hr
+    next hid => simp only [hid, ↓reduceIte]; exact h.res_sub t ht j r hr
   · intro t' ht' j hr
     obtain ⟨t, ht, rfl⟩ := mem_modifyTask.mp ht'
     simp only
@@ -400,9 +589,7 @@ theorem inv_taskUse {p : Pool K} (h : Inv p) (t0 : Task K) (ht0 : t0 ∈ p.tasks
       next heq =>
         simp only [beq_iff_eq] at heq; subst heq
         simp only [Option.some.injEq] at hr
-        rcases hc with ⟨rfl, _, hb⟩ | ⟨_, _, _, hne, _⟩
-        · simpa [setConn] using hb
-        · exact absurd hr hne
+        exact hbrk j (hsv.brk hr)
       next => exact hbrk j (h.res_broken _ ht j hr)
     next => exact hbrk j (h.res_broken t ht j hr)
   · intro t' ht' j hr
@@ -411,18 +598,14 @@ theorem inv_taskUse {p : Pool K} (h : Inv p) (t0 : Task K) (ht0 : t0 ∈ p.tasks
     split at hr
     next hid =>
       have := huniq t ht hid; subst this
+      simp only [↓reduceIte]
       simp only [List.lookup_cons] at hr
       split at hr
       next heq =>
         simp only [beq_iff_eq] at heq; subst heq
         simp only [Option.some.injEq] at hr
-        rcases hc with ⟨_, hres, _⟩ | ⟨_, _, _, _, hok⟩
-        · rw [hres] at hr; cases hr
-        · simp only [↓reduceIte]
-          simpa [setConn] using (hok hr).2
-      next =>
-        simp only [↓reduceIte]
-        exact hack j _ (h.res_ok _ ht j hr)
+        rw [hneti, ← hk]; exact (hsv.ok hr).2
+      next => exact hack j _ (h.res_ok _ ht j hr)
     next hid =>
       simp only [hid, ↓reduceIte]
       exact hack j _ (h.res_ok t ht j hr)
@@ -430,6 +613,18 @@ theorem inv_taskUse {p : Pool K} (h : Inv p) (t0 : Task K) (ht0 : t0 ∈ p.tasks
     refine ⟨(h.priv e he).1, fun t' ht' => ?_⟩
     obtain ⟨t, ht, rfl⟩ := mem_modifyTask.mp ht'
     split <;> exact (h.priv e he).2 t ht
+  · intro e he
+    simp only [hnet e.1 (hiset e he)]
+    exact h.setting_clean e he
+  · intro j tid k' hm
+    simp only [modifyTask, List.length_map]
+    exact h.q_lt j tid k' (hqsub j _ hm)
+  · intro t' ht' j hj e he
+    obtain ⟨t, ht, rfl⟩ := mem_modifyTask.mp ht'
+    split at hj <;> split <;> first | exact h.q_sub t ht j hj e (hqsub j e he) | simp_all
+  · intro t' ht' j k' hm
+    obtain ⟨t, ht, rfl⟩ := mem_modifyTask.mp ht'
+    split at hm <;> split <;> first | exact h.q_ks t ht j k' (hqsub j _ hm) | simp_all
   · intro t' ht' o ho
     obtain ⟨t, ht, rfl⟩ := mem_modifyTask.mp ht'
     split at ho
@@ -446,7 +641,7 @@ theorem inv_taskUse {p : Pool K} (h : Inv p) (t0 : Task K) (ht0 : t0 ∈ p.tasks
     simp only
     cases htasks : p.tasks with
     | nil => rw [htasks] at ht0; cases ht0
-    | cons L rest =>
+    | cons L tl =>
       rw [htasks] at hs ht0
       have hL : t0 = L := by
         simp only [List.mem_cons] at ht0
@@ -454,33 +649,274 @@ theorem inv_taskUse {p : Pool K} (h : Inv p) (t0 : Task K) (ht0 : t0 ∈ p.tasks
         · rfl
         · exact absurd halive (hs.2.1 t0 hr)
       subst hL
-      have hrest : ∀ t ∈ rest, t.id ≠ t0.id := by
+      have hrest : ∀ t ∈ tl, t.id ≠ t0.id := by
         have := h.ids
         rw [htasks, List.pairwise_cons] at this
         intro t ht heq
         exact this.1 t ht heq.symm
       simp only [modifyTask, List.map_cons, ↓reduceIte]
-      have : List.map (fun t => if t.id = t0.id then { t with results := (i, res) :: t.results } else t) rest = rest :=
+      have : List.map (fun t => if t.id = t0.id then { t with results := (i, res) :: t.results } else t) tl = tl :=
         modifyTask_of_ne hrest
       rw [this]
       refine ⟨hs.1, hs.2.1, ?_⟩
-      intro j hj hbr
+      intro j hj hb hm
       by_cases hji : j = i
       · subst hji
-        simp only [setConn, ↓reduceIte] at hbr ⊢
-        refine ⟨fun _ hr => ?_, fun hn => absurd hi hn⟩
-        simp only [List.lookup_cons, beq_self_eq_true, Option.some.injEq] at hr
-        rcases hc with ⟨_, hres, _⟩ | ⟨_, _, _, _, hok⟩
-        · rw [hres] at hr; cases hr
-        · exact (hok hr).1
-      · have hnet : setConn p.net i c j = p.net j := by simp [setConn, hji]
-        rw [hnet] at hbr ⊢
-        have := hs.2.2 j hj hbr
-        refine ⟨fun hsn hr => this.1 hsn ?_, this.2⟩
-        simp only [List.lookup_cons] at hr
-        have hne : (j == i) = false := by simp [hji]
-        rw [hne] at hr
-        exact hr
+        rw [hneti] at hb hm ⊢
+        rw [hsv.broken] at hb; rw [hsv.mark] at hm
+        have hok := hs.2.2 j hj hb hm
+        unfold ConnOk at hok ⊢
+        have hin : j ∈ t0.snapshot := h.sub_snap t0 (by rw [htasks]; exact List.mem_cons_self) j hisub
+        obtain ⟨pre, hpre, hne⟩ := (hok.2 hin).2 halive hisub hlk
+        rw [hqu] at hpre
+        have hpre0 : pre = [] := by
+          cases pre with
+          | nil => rfl
+          | cons e0 pre' =>
+            simp only [List.cons_append, List.cons.injEq] at hpre
+            exact absurd (by rw [← hpre.1]) (hne e0 List.mem_cons_self)
+        subst hpre0
+        simp only [List.nil_append, List.cons.injEq, and_true] at hpre
+        refine ⟨fun hn => absurd hin hn, fun _ => ⟨fun hr => ?_, fun _ _ hlk' => ?_⟩⟩
+        · simp only [List.lookup_cons, beq_self_eq_true, Option.some.injEq] at hr
+          refine ⟨?_, by rw [hsv.queue]; exact hpre.2⟩
+          rw [(hsv.ok hr).1, hk]
+        · simp at hlk'
+      · rw [hnet j hji] at hb hm ⊢
+        have := hs.2.2 j hj hb hm
+        unfold ConnOk at this ⊢
+        refine ⟨this.1, fun hin => ⟨fun hr => (this.2 hin).1 ?_, fun hal hsub hlk' => (this.2 hin).2 hal hsub ?_⟩⟩
+        · simp only [List.lookup_cons] at hr
+          have hne : (j == i) = false := by simp [hji]
+          rw [hne] at hr; exact hr
+        · simp only [List.lookup_cons] at hlk'
+          have hne : (j == i) = false := by simp [hji]
+          rw [hne] at hlk'; exact hlk'
+
+/-- A task writes its `USE` on a snapshot connection (`broken` = the connection is broken: the request fails at
+once and nothing is written). -/
+theorem inv_submit {p : Pool K} (h : Inv p) (t0 : Task K) (ht0 : t0 ∈ p.tasks) (halive : t0.resp = none)
+    (i : Nat) (hi : i ∈ t0.snapshot) (hns : i ∉ t0.submitted) (brokenCase : Bool)
+    (hbc : brokenCase = (p.net i).broken) (N : Nat → Conn K) (f : Task K → Task K)
+    (hNtrue : brokenCase = true → N = p.net)
+    (hNj : ∀ j, j ≠ i → N j = p.net j)
+    (hNb : ∀ j, (N j).broken = (p.net j).broken ∧ (N j).acked = (p.net j).acked ∧ (N j).serverKs = (p.net j).serverKs)
+    (hNi : brokenCase = false → (N i).queue = (p.net i).queue ++ [(.task t0.id, t0.ks)] ∧
+      (p.tasks.head?.map (·.id) = some t0.id → (N i).userMark = false))
+    (hf : ∀ t, (f t).id = t.id ∧ (f t).ks = t.ks ∧ (f t).snapshot = t.snapshot ∧ (f t).resp = t.resp ∧
+      (f t).submitted = i :: t.submitted ∧
+      (f t).results = if brokenCase then (i, .error .broken) :: t.results else t.results) :
+    Inv { p with net := N, tasks := modifyTask p.tasks t0.id f } := by
+  have huniq : ∀ t ∈ p.tasks, t.id = t0.id → t = t0 := fun t ht hid => unique_id h.ids ht ht0 hid
+  have hlk0 : t0.results.lookup i = none := by
+    cases hl : t0.results.lookup i with
+    | none => rfl
+    | some r => exact absurd (h.res_sub t0 ht0 i r hl) hns
+  have hNq : ∀ j, ∀ e ∈ (N j).queue, e ∈ (p.net j).queue ∨ (j = i ∧ brokenCase = false ∧ e = (.task t0.id, t0.ks)) := by
+    intro j e he
+    cases hbcase : brokenCase with
+    | true => rw [hNtrue hbcase] at he; exact Or.inl he
+    | false =>
+      by_cases hj : j = i
+      · subst hj
+        rw [(hNi hbcase).1] at he
+        simp only [List.mem_append, List.mem_singleton] at he
+        rcases he with h1 | h1
+        · exact Or.inl h1
+        · exact Or.inr ⟨rfl, rfl, h1⟩
+      · rw [hNj j hj] at he; exact Or.inl he
+  have hfid : ∀ t : Task K, (if t.id = t0.id then f t else t).id = t.id := by
+    intro t; split
+    · exact (hf t).1
+    · rfl
+  have hfks : ∀ t : Task K, (if t.id = t0.id then f t else t).ks = t.ks := by
+    intro t; split
+    · exact (hf t).2.1
+    · rfl
+  have hfsnap : ∀ t : Task K, (if t.id = t0.id then f t else t).snapshot = t.snapshot := by
+    intro t; split
+    · exact (hf t).2.2.1
+    · rfl
+  have hiset : ∀ e ∈ p.setting, e.1 ≠ i := by
+    intro e he heq
+    exact (h.priv e he).2 t0 ht0 (heq ▸ hi)
+  constructor
+  · exact h.conns_lt
+  · exact h.setting_lt
+  · exact h.setting_cur
+  · intro t' ht' j hj
+    obtain ⟨t, ht, rfl⟩ := mem_modifyTask.mp ht'
+    rw [hfsnap] at hj; exact h.snap_lt t ht j hj
+  · simp only [modifyTask, List.pairwise_map]
+    refine h.ids.imp ?_
+    intro a b hab
+    rw [hfid, hfid]; exact hab
+  · intro t' ht'
+    obtain ⟨t, ht, rfl⟩ := mem_modifyTask.mp ht'
+    simp only [modifyTask, List.length_map]
+    rw [hfid]; exact h.ids_lt t ht
+  · intro t' ht' j hj
+    obtain ⟨t, ht, rfl⟩ := mem_modifyTask.mp ht'
+    rw [hfsnap]
+    split at hj
+    next hid =>
+      have := huniq t ht hid; subst this
+      rw [(hf t).2.2.2.2.1] at hj
+      simp only [List.mem_cons] at hj
+      rcases hj with rfl | hj
+      · exact hi
+      · exact h.sub_snap _ ht j hj
+    next hid => exact h.sub_snap t ht j hj
+  · intro t' ht' j r hr
+    obtain ⟨t, ht, rfl⟩ := mem_modifyTask.mp ht'
+    split at hr
+    next hid =>
+      have := huniq t ht hid; subst this
+      simp only [hid, ↓reduceIte]
+      rw [(hf t).2.2.2.2.1, List.mem_cons]
+      rw [(hf t).2.2.2.2.2] at hr
+      cases brokenCase
+      · simp only [Bool.false_eq_true, ↓reduceIte] at hr
+        exact Or.inr (h.res_sub _ ht j r hr)
+      · simp only [↓reduceIte, List.lookup_cons] at hr
+        split at hr
+        next heq => simp only [beq_iff_eq] at heq; exact Or.inl heq
+        next => exact Or.inr (h.res_sub _ ht j r hr)
+    next hid => simp only [hid, ↓reduceIte]; exact h.res_sub t ht j r hr
+  · intro t' ht' j hr
+    obtain ⟨t, ht, rfl⟩ := mem_modifyTask.mp ht'
+    simp only
+    rw [(hNb j).1]
+    split at hr
+    next hid =>
+      have := huniq t ht hid; subst this
+      rw [(hf t).2.2.2.2.2] at hr
+      cases brokenCase
+      · simp only [Bool.false_eq_true, ↓reduceIte] at hr
+        exact h.res_broken _ ht j hr
+      · simp only [↓reduceIte, List.lookup_cons] at hr
+        split at hr
+        next heq => simp only [beq_iff_eq] at heq; subst heq; exact hbc.symm
+        next => exact h.res_broken _ ht j hr
+    next => exact h.res_broken t ht j hr
+  · intro t' ht' j hr
+    obtain ⟨t, ht, rfl⟩ := mem_modifyTask.mp ht'
+    simp only
+    rw [(hNb j).2.1]
+    rw [hfks]
+    split at hr
+    next hid =>
+      have := huniq t ht hid; subst this
+      rw [(hf t).2.2.2.2.2] at hr
+      cases brokenCase
+      · simp only [Bool.false_eq_true, ↓reduceIte] at hr
+        exact h.res_ok _ ht j hr
+      · simp only [↓reduceIte, List.lookup_cons] at hr
+        split at hr
+        next heq => simp at hr
+        next => exact h.res_ok _ ht j hr
+    next hid =>
+      exact h.res_ok t ht j hr
+  · intro e he
+    refine ⟨(h.priv e he).1, fun t' ht' => ?_⟩
+    obtain ⟨t, ht, rfl⟩ := mem_modifyTask.mp ht'
+    rw [hfsnap]; exact (h.priv e he).2 t ht
+  · intro e he
+    simp only [hNj e.1 (hiset e he)]
+    exact h.setting_clean e he
+  · intro j tid k' hm
+    simp only [modifyTask, List.length_map]
+    rcases hNq j _ hm with h1 | ⟨_, _, h1⟩
+    · exact h.q_lt j tid k' h1
+    · simp only [Prod.mk.injEq, Waiter.task.injEq] at h1
+      rw [h1.1]; exact h.ids_lt t0 ht0
+  · intro t' ht' j hj e he
+    obtain ⟨t, ht, rfl⟩ := mem_modifyTask.mp ht'
+    rw [hfid]
+    split at hj
+    next hid =>
+      have := huniq t ht hid; subst this
+      rw [(hf t).2.2.2.2.1] at hj
+      simp only [List.mem_cons, not_or] at hj
+      rcases hNq j e he with h1 | ⟨h1, _, _⟩
+      · exact h.q_sub _ ht j hj.2 e h1
+      · exact absurd h1 hj.1
+    next hid =>
+      rcases hNq j e he with h1 | ⟨_, _, h1⟩
+      · exact h.q_sub t ht j hj e h1
+      · subst h1; simp only [ne_eq, Waiter.task.injEq]; exact fun heq => hid heq.symm
+  · intro t' ht' j k' hm
+    obtain ⟨t, ht, rfl⟩ := mem_modifyTask.mp ht'
+    rw [hfid] at hm; rw [hfks]
+    rcases hNq j _ hm with h1 | ⟨_, _, h1⟩
+    · exact h.q_ks t ht j k' h1
+    · simp only [Prod.mk.injEq, Waiter.task.injEq] at h1
+      rw [huniq t ht h1.1]; exact h1.2
+  · intro t' ht' o ho
+    obtain ⟨t, ht, rfl⟩ := mem_modifyTask.mp ht'
+    split at ho
+    next hid =>
+      have := huniq t ht hid; subst this
+      rw [(hf t).2.2.2.1, halive] at ho; cases ho
+    next hid =>
+      simp only [hid, ↓reduceIte]
+      exact h.resp t ht o ho
+  · intro hov
+    have hs := h.strong hov
+    unfold Strong at hs ⊢
+    simp only
+    cases htasks : p.tasks with
+    | nil => rw [htasks] at ht0; cases ht0
+    | cons L tl =>
+      rw [htasks] at hs ht0
+      have hL : t0 = L := by
+        simp only [List.mem_cons] at ht0
+        rcases ht0 with rfl | hr
+        · rfl
+        · exact absurd halive (hs.2.1 t0 hr)
+      subst hL
+      have hrest : ∀ t ∈ tl, t.id ≠ t0.id := by
+        have := h.ids
+        rw [htasks, List.pairwise_cons] at this
+        intro t ht heq
+        exact this.1 t ht heq.symm
+      simp only [modifyTask, List.map_cons, ↓reduceIte]
+      have : List.map (fun t => if t.id = t0.id then f t else t) tl = tl := modifyTask_of_ne hrest
+      rw [this]
+      have hft := hf t0
+      refine ⟨by rw [hft.2.1]; exact hs.1, hs.2.1, ?_⟩
+      intro j hj hb hm
+      unfold ConnOk
+      rw [hft.1, hft.2.1, hft.2.2.1, hft.2.2.2.1, hft.2.2.2.2.1, hft.2.2.2.2.2]
+      by_cases hji : j = i
+      · subst hji
+        cases hbcase : brokenCase with
+        | false =>
+          -- written on the live connection: the task's entry is the last one
+          have hni := hNi hbcase
+          refine ⟨fun hn => absurd hi hn, fun _ => ⟨fun hr => ?_, fun _ _ _ => ?_⟩⟩
+          · simp only [Bool.false_eq_true, ↓reduceIte] at hr
+            rw [hlk0] at hr; cases hr
+          · exact ⟨(p.net j).queue, hni.1, fun e he => h.q_sub t0 (by rw [htasks]; exact List.mem_cons_self) j hns e he⟩
+        | true => rw [(hNb j).1, ← hbc, hbcase] at hb; cases hb
+      · rw [hNj j hji] at hb hm ⊢
+        have hok := hs.2.2 j hj hb hm
+        unfold ConnOk at hok
+        refine ⟨hok.1, fun hin => ⟨fun hr => (hok.2 hin).1 ?_, fun hal hsub hlk' => (hok.2 hin).2 hal ?_ ?_⟩⟩
+        · cases brokenCase
+          · simpa using hr
+          · simp only [↓reduceIte, List.lookup_cons] at hr
+            have hne : (j == i) = false := by simp [hji]
+            rw [hne] at hr; exact hr
+        · simp only [List.mem_cons] at hsub
+          rcases hsub with h1 | h1
+          · exact absurd h1 hji
+          · exact h1
+        · cases brokenCase
+          · simpa using hlk'
+          · simp only [↓reduceIte, List.lookup_cons] at hlk'
+            have hne : (j == i) = false := by simp [hji]
+            rw [hne] at hlk'; exact hlk'
 
 /-- A task answers its caller (`use_keyspace_result` of the collected results, or the timeout). -/
 theorem inv_taskResp {p : Pool K} (h : Inv p) (t0 : Task K) (ht0 : t0 ∈ p.tasks) (o : Outcome)
@@ -502,9 +938,12 @@ theorem inv_taskResp {p : Pool K} (h : Inv p) (t0 : Task K) (ht0 : t0 ∈ p.task
     obtain ⟨t, ht, rfl⟩ := mem_modifyTask.mp ht'
     simp only [modifyTask, List.length_map]
     split <;> exact h.ids_lt t ht
+  · intro t' ht' j hj
+    obtain ⟨t, ht, rfl⟩ := mem_modifyTask.mp ht'
+    split at hj <;> split <;> first | exact h.sub_snap t ht j hj | simp_all
   · intro t' ht' j r hr
     obtain ⟨t, ht, rfl⟩ := mem_modifyTask.mp ht'
-    split at hr <;> split <;> exact h.res_snap t ht j r hr
+    split at hr <;> split <;> first | exact h.res_sub t ht j r hr | simp_all
   · intro t' ht' j hr
     obtain ⟨t, ht, rfl⟩ := mem_modifyTask.mp ht'
     split at hr <;> exact h.res_broken t ht j hr
@@ -515,6 +954,16 @@ theorem inv_taskResp {p : Pool K} (h : Inv p) (t0 : Task K) (ht0 : t0 ∈ p.task
     refine ⟨(h.priv e he).1, fun t' ht' => ?_⟩
     obtain ⟨t, ht, rfl⟩ := mem_modifyTask.mp ht'
     split <;> exact (h.priv e he).2 t ht
+  · exact h.setting_clean
+  · intro j tid k' hm
+    simp only [modifyTask, List.length_map]
+    exact h.q_lt j tid k' hm
+  · intro t' ht' j hj e he
+    obtain ⟨t, ht, rfl⟩ := mem_modifyTask.mp ht'
+    split at hj <;> split <;> first | exact h.q_sub t ht j hj e he | simp_all
+  · intro t' ht' j k' hm
+    obtain ⟨t, ht, rfl⟩ := mem_modifyTask.mp ht'
+    split at hm <;> split <;> first | exact h.q_ks t ht j k' hm | simp_all
   · intro t' ht' o' ho'
     obtain ⟨t, ht, rfl⟩ := mem_modifyTask.mp ht'
     split at ho'
@@ -546,12 +995,83 @@ theorem inv_taskResp {p : Pool K} (h : Inv p) (t0 : Task K) (ht0 : t0 ∈ p.task
         split
         · simp
         · exact hs.2.1 t ht
-      · intro j hj hbr
-        have := hs.2.2 j hj hbr
-        split <;> exact this
+      · intro j hj hbr hm
+        have := hs.2.2 j hj hbr hm
+        unfold ConnOk at this ⊢
+        split
+        · refine ⟨this.1, fun hin => ⟨(this.2 hin).1, fun hal => ?_⟩⟩
+          simp at hal
+        · exact this
 
-theorem setConn_self (net : Nat → Conn K) (i : Nat) : setConn net i (net i) = net := by
-  funext j; unfold setConn; split <;> simp_all
+/-- A user statement `USE x` is written on a published connection: from now on nothing is claimed about that
+connection until the next use-keyspace task writes its own `USE` behind it. -/
+theorem inv_userUse {p : Pool K} (h : Inv p) (i : Nat) (x : K) (hi : i ∈ p.conns) :
+    Inv { p with net := setConn p.net i { p.net i with queue := (p.net i).queue ++ [(.user, x)], userMark := true } } := by
+  have hnet : ∀ j, j ≠ i → setConn p.net i { p.net i with queue := (p.net i).queue ++ [(.user, x)], userMark := true } j = p.net j :=
+    fun j hj => by simp [setConn, hj]
+  have hq : ∀ j, ∀ e ∈ (setConn p.net i { p.net i with queue := (p.net i).queue ++ [(.user, x)], userMark := true } j).queue,
+      e ∈ (p.net j).queue ∨ e = (.user, x) := by
+    intro j e he
+    by_cases hj : j = i
+    · subst hj
+      simp only [setConn, ↓reduceIte, List.mem_append, List.mem_singleton] at he
+      exact he
+    · rw [hnet j hj] at he; exact Or.inl he
+  have hiset : ∀ e ∈ p.setting, e.1 ≠ i := fun e he heq => (h.priv e he).1 (heq ▸ hi)
+  constructor
+  · exact h.conns_lt
+  · exact h.setting_lt
+  · exact h.setting_cur
+  · exact h.snap_lt
+  · exact h.ids
+  · exact h.ids_lt
+  · exact h.sub_snap
+  · exact h.res_sub
+  · intro t ht j hr
+    have := h.res_broken t ht j hr
+    by_cases hj : j = i
+    · subst hj; simpa [setConn] using this
+    · simp only [hnet j hj]; exact this
+  · intro t ht j hr
+    have := h.res_ok t ht j hr
+    by_cases hj : j = i
+    · subst hj; simpa [setConn] using this
+    · simp only [hnet j hj]; exact this
+  · exact h.priv
+  · intro e he
+    simp only [hnet e.1 (hiset e he)]
+    exact h.setting_clean e he
+  · intro j tid k' hm
+    rcases hq j _ hm with h1 | h1
+    · exact h.q_lt j tid k' h1
+    · simp at h1
+  · intro t ht j hj e he
+    rcases hq j e he with h1 | h1
+    · exact h.q_sub t ht j hj e h1
+    · subst h1; simp
+  · intro t ht j k' hm
+    rcases hq j _ hm with h1 | h1
+    · exact h.q_ks t ht j k' h1
+    · simp at h1
+  · exact h.resp
+  · intro hov
+    have hs := h.strong hov
+    unfold Strong at hs ⊢
+    simp only
+    cases htasks : p.tasks with
+    | nil =>
+      rw [htasks] at hs
+      intro j hj hb hm
+      by_cases hji : j = i
+      · subst hji; simp [setConn] at hm
+      · rw [hnet j hji] at hb hm ⊢; exact hs j hj hb hm
+    | cons L tl =>
+      rw [htasks] at hs
+      refine ⟨hs.1, hs.2.1, ?_⟩
+      intro j hj hb hm
+      by_cases hji : j = i
+      · subst hji; simp [setConn] at hm
+      · rw [hnet j hji] at hb hm ⊢; exact hs.2.2 j hj hb hm
 
 theorem inv_simple {p q : Pool K} (h : Inv p) (hnet : NetLe p.net q.net) (hconns : ∀ j ∈ q.conns, j ∈ p.conns)
     (hset : ∀ e ∈ q.setting, e ∈ p.setting) (hid : q.nextId = p.nextId) (hks : q.currentKs = p.currentKs)
@@ -561,7 +1081,7 @@ theorem inv_simple {p q : Pool K} (h : Inv p) (hnet : NetLe p.net q.net) (hconns
 theorem inv_step {p : Pool K} (h : Inv p) (e : Ev K) : Inv (step p e) := by
   cases e with
   | useKs k => exact inv_useKs h k
-  | taskUse tid i r =>
+  | taskSubmit tid i =>
     simp only [step]
     split
     · exact h
@@ -572,22 +1092,62 @@ theorem inv_step {p : Pool K} (h : Inv p) (e : Ev K) : Inv (step p e) := by
       · exact h
       · rename_i hcond
         simp only [Bool.or_eq_true, Bool.not_eq_true', not_or, Bool.not_eq_true, Option.isSome_eq_false_iff,
-          Option.isNone_iff_eq_none, Bool.not_eq_false, List.contains_eq_mem, decide_eq_true_eq] at hcond
-        obtain ⟨⟨hal, hin⟩, hlk⟩ := hcond
+          Option.isNone_iff_eq_none, Bool.not_eq_false, List.contains_eq_mem, decide_eq_true_eq,
+          decide_eq_false_iff_not] at hcond
+        obtain ⟨⟨hal, hin'⟩, hns⟩ := hcond
+        have hin : i ∈ t.snapshot := Decidable.not_not.mp hin'
         split
         · rename_i hb
-          have := inv_taskUse h t htm hal i hin hlk (p.net i) (.error .broken) (Or.inl ⟨rfl, rfl, hb⟩)
-          rw [setConn_self] at this
-          exact this
+          exact inv_submit h t htm hal i hin hns true hb.symm p.net _ (fun _ => rfl) (fun _ _ => rfl)
+            (fun _ => ⟨rfl, rfl, rfl⟩) (fun hf => by cases hf) (fun x => ⟨rfl, rfl, rfl, rfl, rfl, rfl⟩)
         · rename_i hb
-          have hp := serveUse_props (p.net i) t.ks r
-          generalize serveUse (p.net i) t.ks r = cr at hp ⊢
-          obtain ⟨c, res⟩ := cr
-          simp only at hp ⊢
-          apply inv_taskUse h t htm hal i hin hlk c res
-          right
           have hb' : (p.net i).broken = false := by simpa using hb
-          exact ⟨hb', by rw [hp.1, hb'], hp.2.1, hp.2.2.1, hp.2.2.2⟩
+          apply inv_submit h t htm hal i hin hns false hb'.symm _ _ (fun hf => by cases hf)
+          · intro j hj; simp [setConn, hj]
+          · intro j; by_cases hj : j = i <;> simp [setConn, hj]
+          · intro _
+            refine ⟨by simp [setConn], fun hnew => ?_⟩
+            simp only [setConn, ↓reduceIte]
+            rw [hnew]; simp
+          · exact fun x => ⟨rfl, rfl, rfl, rfl, rfl, rfl⟩
+  | serve i r =>
+    simp only [step]
+    split
+    · exact h
+    · rename_i w k rest hqu
+      have hsv := served_of_step (p.net i) k r rest
+      generalize (if (p.net i).broken = true then (p.net i, (Except.error UseErr.broken : UseRes)) else serveUse (p.net i) k r) = cr at hsv ⊢
+      obtain ⟨c1, res⟩ := cr
+      simp only at hsv ⊢
+      cases w with
+      | user =>
+        simp only
+        exact inv_serve_norec h i .user k rest _ res hqu hsv (fun t _ hw => by cases hw)
+      | task tid =>
+        simp only
+        split
+        · rename_i hft
+          refine inv_serve_norec h i (.task tid) k rest _ res hqu hsv (fun t ht hw => ?_)
+          simp only [Waiter.task.injEq] at hw
+          subst hw
+          unfold findTask at hft
+          have := List.find?_eq_none.mp hft t ht
+          simp at this
+        · rename_i t hft
+          obtain ⟨htm, htid⟩ := findTask_some hft
+          subst htid
+          split
+          · rename_i hcond
+            refine inv_serve_norec h i (.task t.id) k rest _ res hqu hsv (fun t' ht' hw => ?_)
+            simp only [Waiter.task.injEq] at hw
+            have := unique_id h.ids ht' htm hw.symm
+            subst this
+            simp only [Bool.or_eq_true, Option.isSome_iff_ne_none] at hcond
+            exact hcond
+          · rename_i hcond
+            simp only [Bool.or_eq_true, not_or, Bool.not_eq_true, Option.isSome_eq_false_iff,
+              Option.isNone_iff_eq_none] at hcond
+            exact inv_serve_rec h i t k rest _ res hqu hsv htm hcond.1 hcond.2
   | taskFinish tid =>
     simp only [step]
     split
@@ -600,7 +1160,6 @@ theorem inv_step {p : Pool K} (h : Inv p) (e : Ev K) : Inv (step p e) := by
       · rename_i hcond
         simp only [Bool.or_eq_true, Bool.not_eq_true', not_or, Bool.not_eq_false] at hcond
         have := inv_taskResp h t htm (useKeyspaceResult t.resultList) (Or.inr ⟨hcond.2, rfl⟩)
-        -- the model applies the function to the task found, which is the unique one with that id
         have heq : modifyTask p.tasks t.id (fun t' => { t' with resp := some (useKeyspaceResult t'.resultList) }) =
             modifyTask p.tasks t.id (fun t' => { t' with resp := some (useKeyspaceResult t.resultList) }) := by
           unfold modifyTask
@@ -640,6 +1199,14 @@ theorem inv_step {p : Pool K} (h : Inv p) (e : Ev K) : Inv (step p e) := by
             · exact h.snap_lt t ht j hj
           simp only [setConn]
           rw [if_neg (by omega)]
+        · intro j
+          by_cases hj : j = p.nextId
+          · right; simp [setConn, hj]
+          · left; simp [setConn, hj]
+        · intro e he
+          have := h.setting_lt e he
+          simp only [setConn]
+          rw [if_neg (by omega)]
         · rfl
         · rfl
         · simp only; omega
@@ -655,6 +1222,7 @@ theorem inv_step {p : Pool K} (h : Inv p) (e : Ev K) : Inv (step p e) := by
       · intro t ht hc
         have := h.snap_lt t ht _ hc
         simp at this
+      · simp [setConn]
       · intro hk; simp only [setConn, ↓reduceIte]; exact hk
       · intro _; simp [setConn]
   | openFailed requested =>
@@ -675,7 +1243,8 @@ theorem inv_step {p : Pool K} (h : Inv p) (e : Ev K) : Inv (step p e) := by
       have hlt := h.setting_lt _ hmem
       have hcur := h.setting_cur _ hmem
       have hpriv := h.priv _ hmem
-      simp only at hlt hpriv
+      have hclean := h.setting_clean _ hmem
+      simp only at hlt hpriv hclean
       have h1 : Inv { p with setting := p.setting.filter (·.1 ≠ i') } :=
         inv_simple h (NetLe.refl _) (fun _ hj => hj) (fun e he => (List.mem_filter.mp he).1) rfl rfl rfl rfl
       split
@@ -691,6 +1260,14 @@ theorem inv_step {p : Pool K} (h : Inv p) (e : Ev K) : Inv (step p e) := by
               rcases hj with hj | ⟨t, ht, hj⟩
               · intro heq; subst heq; exact hpriv.1 hj
               · intro heq; subst heq; exact hpriv.2 t ht hj
+            simp [setConn, hne]
+          · intro j
+            by_cases hj : j = i'
+            · subst hj; left; simp only [setConn, ↓reduceIte]; exact hp.2.2.2.2.1
+            · left; simp [setConn, hj]
+          · intro e he
+            have := (List.mem_filter.mp he).2
+            have hne : e.1 ≠ i' := by simpa using this
             simp [setConn, hne]
           · rfl
           · rfl
@@ -708,9 +1285,11 @@ theorem inv_step {p : Pool K} (h : Inv p) (e : Ev K) : Inv (step p e) := by
             have := (List.mem_filter.mp he).2
             simpa using this
           · exact hpriv.2
+          · simp only [setConn, ↓reduceIte]
+            rw [hp.2.2.2.2.1, hp.2.2.2.2.2]; exact hclean
           · intro _
             simp only [setConn, ↓reduceIte]
-            have := (hp.2.2.2 rfl).1
+            have := (hp.2.2.2.1 rfl).1
             rw [this]
             rename_i hk
             exact hk
@@ -728,6 +1307,13 @@ theorem inv_step {p : Pool K} (h : Inv p) (e : Ev K) : Inv (step p e) := by
     · split
       · exact inv_simple h (NetLe.refl _) (fun j hj => (List.mem_filter.mp hj).1) (fun _ he => he) rfl rfl rfl rfl
       · exact inv_simple h (NetLe.refl _) (fun _ hj => hj) (fun _ he => he) rfl rfl rfl rfl
+  | userUse i x =>
+    simp only [step]
+    split
+    · rename_i hcond
+      simp only [Bool.and_eq_true, List.contains_eq_mem, decide_eq_true_eq] at hcond
+      exact inv_userUse h i x hcond.1
+    · exact h
 
 theorem inv_run {p : Pool K} (h : Inv p) (evs : List (Ev K)) : Inv (run p evs) := by
   unfold run
@@ -737,7 +1323,7 @@ theorem inv_run {p : Pool K} (h : Inv p) (evs : List (Ev K)) : Inv (run p evs) :
 
 /-! ### a connection enters `conns` only through `handle_ready_connection` with the current keyspace -/
 
-theorem handleReady_new_conn (p : Pool K) (i : Nat) (evKs : Option K) (req : Bool) (j : Nat)
+theorem handleReady_new_conn (p : Pool K) (i : Nat) (evKs : Option K) (req : Option Nat) (j : Nat)
     (hj : j ∈ (p.handleReady i evKs req).afterReady.conns) (hn : j ∉ p.conns) :
     j = i ∧ (p.currentKs = none ∨ evKs = p.currentKs) ∧
     ((p.handleReady i evKs req).afterReady.net j).serverKs = (p.net j).serverKs ∧
@@ -763,7 +1349,7 @@ theorem publish_step {p : Pool K} (h : Inv p) (e : Ev K) (j : Nat)
     ((step p e).net j).serverKs = (step p e).currentKs := by
   cases e with
   | useKs k => simp only [step] at hj; exact absurd hj hn
-  | taskUse tid i r =>
+  | taskSubmit tid i =>
     simp only [step] at hj
     split at hj
     · exact absurd hj hn
@@ -772,6 +1358,18 @@ theorem publish_step {p : Pool K} (h : Inv p) (e : Ev K) (j : Nat)
       · split at hj
         · exact absurd hj hn
         · exact absurd hj hn
+  | serve i r =>
+    simp only [step] at hj
+    split at hj
+    · exact absurd hj hn
+    · split at hj
+      · exact absurd hj hn
+      · split at hj
+        · exact absurd hj hn
+        · split at hj <;> exact absurd hj hn
+  | userUse i x =>
+    simp only [step] at hj
+    split at hj <;> exact absurd hj hn
   | taskFinish tid =>
     simp only [step] at hj
     split at hj
@@ -836,7 +1434,7 @@ theorem publish_step {p : Pool K} (h : Inv p) (e : Ev K) (j : Nat)
           simp only [setConn, ↓reduceIte]
           rcases h2 with h2 | h2
           · exact absurd h2 hcur
-          · rw [(hp.2.2.2 rfl).1]; exact h2
+          · rw [(hp.2.2.2.1 rfl).1]; exact h2
         | error e =>
           simp only [Pool.close] at hj
           exact absurd hj hn
@@ -992,7 +1590,7 @@ theorem task_persists {p : Pool K} (h : Inv p) (e : Ev K) (t : Task K) (ht : t 
     · simp [hid]
   cases e with
   | useKs k => exact ⟨t, by simp only [step]; exact List.mem_cons_of_mem _ ht, rfl, rfl, rfl, fun _ => rfl⟩
-  | taskUse tid i r =>
+  | taskSubmit tid i =>
     simp only [step]
     split
     · exact hsame _ rfl
@@ -1003,10 +1601,33 @@ theorem task_persists {p : Pool K} (h : Inv p) (e : Ev K) (t : Task K) (ht : t 
       · exact hsame _ rfl
       · rename_i hcond
         simp only [Bool.or_eq_true, Bool.not_eq_true', not_or, Bool.not_eq_true, Option.isSome_eq_false_iff,
-          Option.isNone_iff_eq_none, Bool.not_eq_false, List.contains_eq_mem, decide_eq_true_eq] at hcond
+          Option.isNone_iff_eq_none] at hcond
         split
         · exact hmod _ t0 _ htm hcond.1.1 rfl (fun x => ⟨rfl, rfl, rfl⟩)
         · exact hmod _ t0 _ htm hcond.1.1 rfl (fun x => ⟨rfl, rfl, rfl⟩)
+  | serve i r =>
+    simp only [step]
+    split
+    · exact hsame _ rfl
+    · rename_i w k rest hqu
+      cases w with
+      | user => exact hsame _ rfl
+      | task tid =>
+        simp only
+        split
+        · exact hsame _ rfl
+        · rename_i t0 hft
+          obtain ⟨htm, htid⟩ := findTask_some hft
+          subst htid
+          split
+          · exact hsame _ rfl
+          · rename_i hcond
+            simp only [Bool.or_eq_true, not_or, Bool.not_eq_true, Option.isSome_eq_false_iff,
+              Option.isNone_iff_eq_none] at hcond
+            exact hmod _ t0 _ htm hcond.1 rfl (fun x => ⟨rfl, rfl, rfl⟩)
+  | userUse i x =>
+    simp only [step]
+    split <;> exact hsame _ rfl
   | taskFinish tid =>
     simp only [step]
     split
